@@ -301,6 +301,132 @@ pub fn run_mem_family(ctx: &Ctx, fam: &MemFamily) -> Stats {
         total.merge(st2);
         total.exhaustive.push("per mem function: source lengths 2^k-2..=2^k+2 (k = 7..=12, 16) and 100/200/300/1000/3000 x every planted unit class at positions {0, 1, 15..17, middle, 65..1 from the end} x destination lengths at the planted position and the documented size".into());
     }
+    // ---- adjacent pairs and table sweep (see memgen): byte-source functions get (valid character,
+    // near-valid sequence) pairs in both orders and the UTF-8 table sweep; UTF-16-source functions
+    // get every pair of boundary code units at stride-relevant distances
+    if !fw::should_stop() {
+        let thorough = ctx.tier == fw::Tier::Thorough;
+        let near = memgen::utf8_near_valid(thorough);
+        let reps = memgen::utf8_valid_reps();
+        let layouts16 = memgen::pair_layouts16();
+        let st3 = par_run(ctx, nf * LANES, |part, st| {
+            let f = fam.fns[part / LANES];
+            let lane = part % LANES;
+            let mut rn = MemRunner::new();
+            let kind = f.src_kind();
+            let mut k = 0usize;
+            let mut run = |src8: Vec<u8>, src16: Vec<u16>, class: &str, st: &mut Stats, k: usize| -> bool {
+                let (sa, da) = fam.aligns[k % fam.aligns.len()];
+                let mut base = MemCase { f, src8, src16, dst_len: 0, src_align: sa, dst_align: da, fill: [0xA5, 0x00, 0xFF, 0x02][k & 3] };
+                base.sanitise();
+                let n = base.src_len();
+                let dsts: Vec<usize> = if f.is_partial() {
+                    let suff = f.sufficient(n);
+                    vec![suff, n, n.saturating_sub(1 + k % 5)]
+                } else {
+                    vec![f.min_dst(n).unwrap_or(0)]
+                };
+                for d in dsts {
+                    let mut c = base.clone();
+                    c.dst_len = d;
+                    st.evals += 1;
+                    st.nontrivial_distinct();
+                    st.class(class);
+                    if let Some(flt) = eval_case_st(&mut rn, &c, fam.prop, fam.fills_mode, Some(st)) {
+                        let min = shrink_case(&c, fam.prop, fam.fills_mode);
+                        let flt2 = eval_case(&mut rn, &min, fam.prop, fam.fills_mode).unwrap_or(flt);
+                        st.violations.push(fault_to_violation(&min, &flt2));
+                        return false;
+                    }
+                }
+                true
+            };
+            match kind {
+                SrcKind::U16 => {
+                    for (ai, &a) in memgen::UNIT_EDGES16.iter().enumerate() {
+                        if ai % LANES != lane {
+                            continue;
+                        }
+                        for &b in memgen::UNIT_EDGES16.iter() {
+                            for &(p, d, t) in &layouts16 {
+                                k += 1;
+                                if !run(vec![], memgen::embed_pair16(a, b, p, d, t), "two-boundary-units-at-stride-relevant-distance", st, k) {
+                                    return;
+                                }
+                            }
+                        }
+                        if fw::should_stop() {
+                            return;
+                        }
+                    }
+                }
+                SrcKind::Bytes | SrcKind::Str => {
+                    let embeds: &[(usize, usize)] = if fam.prop == "C15" { &[(0, 1), (15, 17)] } else { &[(3, 14)] };
+                    let mut src = Vec::with_capacity(64);
+                    let ok = memgen::utf8_table_sweep(lane, LANES, |s| {
+                        for &(pre, tail) in embeds {
+                            k += 1;
+                            src.clear();
+                            src.extend((0..pre).map(|i| b'a' + (i % 26) as u8));
+                            src.extend_from_slice(s);
+                            src.extend((0..tail).map(|i| b'A' + (i % 26) as u8));
+                            if !run(src.clone(), vec![], "utf8-table-sweep", st, k) {
+                                return false;
+                            }
+                        }
+                        !(k % 4096 == 0 && fw::should_stop())
+                    });
+                    if !ok {
+                        return;
+                    }
+                    for (ni, s) in near.iter().enumerate() {
+                        if ni % LANES != lane {
+                            continue;
+                        }
+                        if fw::should_stop() {
+                            return;
+                        }
+                        for a in &reps {
+                            for &(pre, tail) in &memgen::PAIR_EMBED {
+                                for order in 0..2 {
+                                    k += 1;
+                                    let src8 = if order == 0 { memgen::embed_pair8(a, s, pre, tail) } else { memgen::embed_pair8(s, a, pre, tail) };
+                                    if !run(src8, vec![], "valid-character-adjacent-to-near-valid-sequence", st, k) {
+                                        return;
+                                    }
+                                }
+                            }
+                        }
+                    }
+                    // two near-valid sequences back to back (what the first leaves behind in a reused decoder)
+                    let step = if thorough { 1 } else { 7 };
+                    for (ni, s) in near.iter().enumerate() {
+                        if ni % LANES != lane {
+                            continue;
+                        }
+                        if fw::should_stop() {
+                            return;
+                        }
+                        for t in near.iter().skip(ni % step).step_by(step) {
+                            k += 1;
+                            let mut src8 = s.clone();
+                            if k % 3 == 0 {
+                                src8.extend_from_slice(b"ab");
+                            }
+                            src8.extend_from_slice(t);
+                            src8.push(b'z');
+                            if !run(src8, vec![], "two-near-valid-sequences", st, k) {
+                                return;
+                            }
+                        }
+                    }
+                }
+                _ => {}
+            }
+        });
+        total.merge(st3);
+        total.exhaustive.push(format!("UTF-8-source functions: the UTF-8 table sweep (every lead x second pair, every three-byte string, four-byte leads x second x third), {} valid characters x {} near-valid sequences x both orders x {} embeddings, pairs of near-valid sequences; UTF-16-source functions: all pairs of {} boundary units x {} layouts", reps.len(), near.len(), memgen::PAIR_EMBED.len(), memgen::UNIT_EDGES16.len(), layouts16.len()));
+    }
     total.exhaustive.push(format!("per mem function: source lengths 0..={} x 4 fillers x every planted unit class at every position (plus, in ASCII filler, a second planted unit 1/2/5/15/16/17/32/64 units later) x alignments {:?} x destination lengths around the planted position and the documented size", fam.max_len, fam.aligns));
     if fw::should_stop() {
         return total;
